@@ -5,10 +5,34 @@ package xpath
 type logical func(iterator, string, interface{}, interface{}) bool
 
 var logicalFuncs = [][]logical{
-	{cmpBooleanBoolean, nil, nil, nil},
-	{nil, cmpNumericNumeric, cmpNumericString, cmpNumericNodeSet},
-	{nil, cmpStringNumeric, cmpStringString, cmpStringNodeSet},
-	{nil, cmpNodeSetNumeric, cmpNodeSetString, cmpNodeSetNodeSet},
+	{cmpBooleanAny, cmpBooleanAny, cmpBooleanAny, cmpBooleanAny},
+	{cmpBooleanAny, cmpNumericNumeric, cmpNumericString, cmpNumericNodeSet},
+	{cmpBooleanAny, cmpStringNumeric, cmpStringString, cmpStringNodeSet},
+	{cmpBooleanAny, cmpNodeSetNumeric, cmpNodeSetString, cmpNodeSetNodeSet},
+}
+
+// cmpBooleanAny compares a boolean with a value of any type (the table had no
+// entry for these operand pairs, and the only boolean/boolean entry knew just
+// "and"/"or"). XPath: for = and != the other operand is converted to a boolean;
+// for the relational operators both operands are converted to numbers.
+func cmpBooleanAny(t iterator, op string, m, n interface{}) bool {
+	a, b := asBool(t, m), asBool(t, n)
+	switch op {
+	case "=":
+		return a == b
+	case "!=":
+		return a != b
+	case "or", "and":
+		return cmpBooleanBooleanF(op, a, b)
+	}
+	x, y := 0.0, 0.0
+	if a {
+		x = 1
+	}
+	if b {
+		y = 1
+	}
+	return cmpNumberNumberF(op, x, y)
 }
 
 // number vs number
